@@ -11,7 +11,7 @@
 From Coq Require Import ZArith QArith List Bool Permutation.
 From MV Require Import Par.Sched Par.ParDefs.
 From MV Require Import Geo.WindingDefs Geo.Winding Gen.BoolConsts Geo.InclDefs Geo.Incl Geo.Perturb
-  Geo.InclPar Geo.VoxelChain Geo.QOps Geo.KernelDefs Geo.FloodDefs Geo.Flood Geo.Kernel.
+  Geo.InclPar Geo.VoxelChain Geo.QOps Geo.KernelDefs Geo.FloodDefs Geo.Flood Geo.Kernel Geo.Kernel11.
 Import ListNotations.
 Local Open Scope Z_scope.
 
@@ -340,6 +340,19 @@ Theorem kernel02_is_crossing_sum_partial : forall (ex fw : bool) (inA inB : kmes
       else gen_shadowsQ z02 (vz (vpos inA a0)) (gen_withSignQ ex (vz (fnorm inB b2)))) = true).
 Proof. exact kernel02_s02. Qed.
 Print Assumptions kernel02_is_crossing_sum_partial.
+
+(* Kernel11 (PARTIAL, same sense): s11 is 0 or the sum of the four Shadow01 values of the end points of either edge
+   against the other edge (start points negative), and non-zero only if, at the crossing computed by Intersect, the P
+   edge is below the Q edge in the perturbed z order. *)
+Theorem kernel11_is_crossing_sum_partial :
+  forall (ex : bool) (inP inQ : kmesh) (p1 p1s p1e q1 q1s q1e s : Z) (xyzz : option (Q * Q * Q * Q)),
+  kernel11 ex inP inQ p1 p1s p1e q1 q1s q1e = Some (s, xyzz) ->
+  (s = 0 \/ s = s11_pre ex inP inQ p1 p1s p1e q1 q1s q1e) /\
+  (s <> 0 -> exists x y z w, xyzz = Some (x, y, z, w) /\
+     gen_shadowsQ z w (gen_withSignQ ex (vz (fnorm inP (p1 / 3)) + vz (fnorm inP (hpair inP p1 / 3)))
+                       - (vz (fnorm inQ (q1 / 3)) + vz (fnorm inQ (hpair inQ q1 / 3))))%Q = true).
+Proof. exact kernel11_s11. Qed.
+Print Assumptions kernel11_is_crossing_sum_partial.
 
 (* Kernel12: x12 = sigma * (s02(start) - s02(end)) - sum over the sides of the face of (+-1) * s11 *)
 Theorem kernel12_is_signed_sum : forall (ex fw : bool) (inP inQ : kmesh) (a1 b2 x : Z) (v : option v3),
